@@ -106,10 +106,21 @@ def smulC (a : Quat (Cx α)) (s : Cx α) : Quat (Cx α) := smul a s
 
 /-! ### `sqrt(Quaternion<T,Hermitian>)` and `eigen` with the square root as a leaf -/
 
-/-- `sqrt(h)`: `root_det = sqrt(det h); scalar = sqrt(0.5*(s0+root_det));
+/-- order leaves used by `sqrt` and `eigen`: `x < 0`, `x ≤ y`, and `numeric_limits<T>::epsilon()` -/
+structure OrdLeaves (α : Type) where
+  ltZero : α → Bool
+  le : α → α → Bool
+  eps : α
+
+/-- the determinant as `sqrt(h)` uses it: a value that is negative only by rounding
+(`-d ≤ 4 ε s0²`) is replaced by zero -/
+def clampDet (o : OrdLeaves α) (d s0 : α) : α :=
+  if o.ltZero d && o.le (-d) ((two*two) * o.eps * s0 * s0) then zero else d
+
+/-- `sqrt(h)`: `d = det h` (clamped); `root_det = sqrt(d); scalar = sqrt(0.5*(s0+root_det));
 if (scalar == 0) return 0; return (scalar, vector/(2*scalar))` -/
-def sqrtH (sqrtFn : α → R α) (h : Quat α) : R (Quat α) := do
-  let rootDet ← sqrtFn (detH h)
+def sqrtH (sqrtFn : α → R α) (o : OrdLeaves α) (h : Quat α) : R (Quat α) := do
+  let rootDet ← sqrtFn (clampDet o (detH h) h.s0)
   let scalar ← sqrtFn (half * (h.s0 + rootDet))
   if Arith.eq0 scalar then
     pure (ofScalar zero)
@@ -117,17 +128,24 @@ def sqrtH (sqrtFn : α → R α) (h : Quat α) : R (Quat α) := do
     let d := two * scalar
     pure ⟨scalar, h.s1 / d, h.s2 / d, h.s3 / d⟩
 
-/-- `eigen(q)`: `p = norm(vector)`; two branches selected by `q.s1 < 0 && q.s0 != 0` -/
+/-- `eigen(q)`: `p = norm(vector)`; identity when `p == 0`; otherwise two branches selected by
+`q.s1 < 0 && q.s0 != 0`; in the second branch `p + s1` is evaluated as `(s2²+s3²)/(p-s1)` when
+`s1 < 0` (reached only for `s0 == 0`), with the exact `-s1` axis mapped to the exchange rotation -/
 def eigenH (sqrtFn : α → R α) (ltZero : α → Bool) (q : Quat α) : R (Quat α) := do
   let p ← sqrtFn (Vec.normsq q.getVector)
-  if ltZero q.s1 && !(Arith.eq0 q.s0) then
+  if Arith.eq0 p then pure ⟨one, zero, zero, zero⟩
+  else if ltZero q.s1 && !(Arith.eq0 q.s0) then
     let r ← sqrtFn (two*p*(p - q.s1))
     let m ← sdiv one r
     pure ⟨m*q.s3, (-m)*q.s2, (-m)*(p - q.s1), zero⟩
   else
-    let r ← sqrtFn (two*p*(p + q.s1))
-    let m ← sdiv one r
-    pure ⟨m*(p + q.s1), zero, (-m)*q.s3, m*q.s2⟩
+    let perp := q.s2*q.s2 + q.s3*q.s3
+    if ltZero q.s1 && Arith.eq0 perp then pure ⟨zero, zero, -one, zero⟩
+    else
+      let sum ← if ltZero q.s1 then sdiv perp (p - q.s1) else pure (p + q.s1)
+      let r ← sqrtFn (two*p*sum)
+      let m ← sdiv one r
+      pure ⟨m*sum, zero, (-m)*q.s3, m*q.s2⟩
 
 end Quat
 end Epsic
